@@ -132,6 +132,18 @@ def alias_feature(check, ctx, case, upto=None):
     for t in occ:
         groups.setdefault(syms(t), []).append(t)
     prelude = prelude_from_decls(h['decls'], defs)
+    # two occurrences that are both valid, or both unsatisfiable, simplify to the same constant term
+    consts = {'true': 0, 'false': 0}
+    for t in occ:
+        try:
+            if ctx.refs.truth(prelude, ['(not (= %s true))' % t]) == 'unsat':
+                consts['true'] += 1
+            elif ctx.refs.truth(prelude, ['(not (= %s false))' % t]) == 'unsat':
+                consts['false'] += 1
+        except RefError:
+            continue
+    if consts['true'] >= 2 or consts['false'] >= 2:
+        return True
     for g in groups.values():
         for i in range(len(g)):
             for j in range(i + 1, len(g)):
